@@ -71,7 +71,7 @@ impl DetectProp for C05 {
         c.tag = format!("filters:{}", c.tag);
         c
     }
-    fn directed(&self) -> Vec<Case> {
+    fn directed(&self, _thorough: bool) -> Vec<Case> {
         let mut v = vec![];
         let mk = |bytes: &[u8], incl: &[&str], excl: &[&str]| {
             let mut s = Sett::default();
